@@ -461,7 +461,25 @@ pub fn g7_candidate(rng: &mut Rng) -> Option<(ChessBoard, &'static str)> {
         cells[pr * 8 + gf] = Some(Piece(PieceType::Pawn, opp));
         ep = Some(er * 8 + gf);
         kind = "ep";
-        if rng.pct(50) {
+        // (ninth wave, C01-i) own pawns on BOTH neighbouring files of the pushed pawn, one of them pinned on its file: king
+        // behind it on that file, enemy rook/queen beyond the en-passant rank on the same file
+        let of = if gf > f { gf + 1 } else { gf.wrapping_sub(1) };
+        if of < 8 && rng.pct(35) {
+            cells[pr * 8 + of] = Some(Piece(PieceType::Pawn, own));
+            let pf = if rng.pct(50) { f } else { of };
+            let (kr, ar): (Vec<usize>, Vec<usize>) = if stm == Color::White { ((0..pr).collect(), (er + 1..8).collect()) } else { ((pr + 1..8).collect(), (0..er).collect()) };
+            if !kr.is_empty() && !ar.is_empty() {
+                let k = *rng.pick(&kr) * 8 + pf;
+                let a = *rng.pick(&ar) * 8 + pf;
+                if cells[k].is_none() && cells[a].is_none() {
+                    cells[k] = Some(Piece(PieceType::King, own));
+                    own_king = Some(k);
+                    cells[a] = Some(Piece(if rng.pct(50) { PieceType::Rook } else { PieceType::Queen }, opp));
+                    kind = "ep-two-pin";
+                }
+            }
+        }
+        if own_king.is_none() && rng.pct(50) {
             // rank discovery: king on one side of the two pawns, enemy R/Q on the other
             let (lo, hi) = (f.min(gf), f.max(gf));
             let left: Vec<usize> = (0..lo).collect();
@@ -528,6 +546,7 @@ pub fn g7_candidate(rng: &mut Rng) -> Option<(ChessBoard, &'static str)> {
         // crowded candidates are only worth keeping when they are (nearly) immobile
         return if legal.len() <= 1 { Some((b, "ep-crowd")) } else { None };
     }
+    if kind == "ep-two-pin" { return Some((b, kind)); }
     if low || ep_illegal || rng.pct(3) { Some((b, if low { "lowmob" } else { kind })) } else { None }
 }
 
